@@ -653,6 +653,7 @@ def run_session(scratch: str) -> None:
 
 def main() -> None:
     # exec mode: one interpreter per session, scratch directory given in SIM_SCRATCH
+    preload()
     run_session(os.environ["SIM_SCRATCH"])
 
 
